@@ -13,7 +13,16 @@ import (
 
 type rng struct{ s uint64 }
 
-func newRng(seed uint64) *rng { return &rng{s: seed*0x9E3779B97F4A7C15 + 0x1234567} }
+// the seed is scrambled so that nearby seeds do not give shifted copies of one stream
+func newRng(seed uint64) *rng {
+	z := seed + 0x632BE59BD9B4E019
+	z = (z ^ (z >> 30)) * 0xBF58476D1CE4E5B9
+	z = (z ^ (z >> 27)) * 0x94D049BB133111EB
+	z = z ^ (z >> 31)
+	z = (z ^ (z >> 33)) * 0xFF51AFD7ED558CCD
+	z = (z ^ (z >> 33)) * 0xC4CEB9FE1A85EC53
+	return &rng{s: z ^ (z >> 33)}
+}
 
 func (r *rng) next() uint64 {
 	r.s += 0x9E3779B97F4A7C15
@@ -30,7 +39,7 @@ func (r *rng) intn(n int) int {
 }
 func (r *rng) chance(num, den int) bool { return r.intn(den) < num }
 func (r *rng) pick(xs []int) int        { return xs[r.intn(len(xs))] }
-func (r *rng) fork() *rng               { return &rng{s: r.next()} }
+func (r *rng) fork() *rng               { return newRng(r.next()) }
 
 // ---------- pointer keys: distinct keys with structurally equal content ----------
 
@@ -67,6 +76,9 @@ func encBytes(s string) string {
 	}
 	return encList(items)
 }
+
+var encDepthLimit = -1
+var encDepthCur = 0
 
 // encVal encodes any supported Go value (typed or under `any`) as a Gallina term of type val.
 func encVal(v any) string {
@@ -105,9 +117,11 @@ func encVal(v any) string {
 		return "(VFloat 64 " + encFloatBits(a) + ")"
 	case complex64:
 		c := complex128(a)
-		return fmt.Sprintf("(VComplex 64 %s %s %s %s)", encFloatBits(real(c)), encFloatBits(imag(c)), encFloatBits(cmplx.Abs(c)), encFloatBits(cmplx.Phase(c)))
+		n := complex(real(c)+0, imag(c)+0) // the oracle fields are taken on the value with negative zeros normalized
+		return fmt.Sprintf("(VComplex 64 %s %s %s %s)", encFloatBits(real(c)), encFloatBits(imag(c)), encFloatBits(cmplx.Abs(n)), encFloatBits(cmplx.Phase(n)))
 	case complex128:
-		return fmt.Sprintf("(VComplex 128 %s %s %s %s)", encFloatBits(real(a)), encFloatBits(imag(a)), encFloatBits(cmplx.Abs(a)), encFloatBits(cmplx.Phase(a)))
+		n := complex(real(a)+0, imag(a)+0)
+		return fmt.Sprintf("(VComplex 128 %s %s %s %s)", encFloatBits(real(a)), encFloatBits(imag(a)), encFloatBits(cmplx.Abs(n)), encFloatBits(cmplx.Phase(n)))
 	case string:
 		return "(VStr " + encBytes(a) + ")"
 	case *PK:
@@ -115,6 +129,14 @@ func encVal(v any) string {
 			return "VNil"
 		}
 		return fmt.Sprintf("(VPtr %d %s)", pkIds[a], zlit(int64(a.X)))
+	}
+	// containers: optional cut-off for self-containing values
+	if encDepthLimit >= 0 {
+		if encDepthCur >= encDepthLimit {
+			return "VNil"
+		}
+		encDepthCur++
+		defer func() { encDepthCur-- }()
 	}
 	rv := reflect.ValueOf(v)
 	ts := rv.Type().String()
